@@ -334,9 +334,9 @@ Fixpoint parse (c : con) (cx : ctx) (p : path) (s : istream) {struct c} : res (v
       match v with
       | VBytes d => match decode enc d with
                     | Some cps => Ok (VStr cps, s')
-                    | None => raise_np EString
+                    | None => raise EString p
                     end
-      | _ => raise_np EString
+      | _ => raise EString p
       end
   | CEnum c' table =>
       let* (v, s') := parse c' cx p s in
